@@ -74,4 +74,104 @@ theorem expectedL_sound : ∀ (cs : List Sk) (b : Nat), WFL cs = true →
       exact ⟨touches_cons this.1, by omega, by simp; omega⟩
 end
 
+/-! ### the generalised judge accepts only in-order sub-selections of the expected trace -/
+
+theorem dropHead_spec (x : Access) (tr : List Access) :
+    ∃ pre, tr = pre ++ dropHead x tr ∧ pre.Sublist [x] := by
+  unfold dropHead
+  split
+  · rename_i h
+    cases tr with
+    | nil => simp at h
+    | cons a t =>
+      simp only [List.head?_cons, Option.some.injEq] at h
+      subst h
+      exact ⟨[a], by simp, List.Sublist.refl _⟩
+  · exact ⟨[], by simp, List.nil_sublist _⟩
+
+theorem head?_eq_some {α : Type} {l : List α} {x : α} (h : l.head? = some x) : l = x :: l.tail := by
+  cases l with
+  | nil => simp at h
+  | cons a t => simp only [List.head?_cons, Option.some.injEq] at h; subst h; rfl
+
+mutual
+theorem selTrace_sublist : ∀ (sk : Sk) (b : Nat) (tr tr' : List Access), selTrace sk b tr = some tr' →
+    ∃ pre, tr = pre ++ tr' ∧ pre.Sublist (expectedTrace sk b)
+  | .mem s, b, tr, tr', h => by
+    simp only [selTrace, Option.some.injEq] at h
+    subst h
+    simpa [expectedTrace] using dropHead_spec ⟨.mem, b, 1⟩ tr
+  | .delay n, b, tr, tr', h => by
+    simp only [selTrace, Option.some.injEq] at h
+    subst h
+    simpa [expectedTrace] using dropHead_spec ⟨.delay, b, delayExtra + n⟩ tr
+  | .feed s, b, tr, tr', h => by
+    simp only [selTrace, Option.some.injEq] at h
+    subst h
+    exact ⟨[], by simp, List.nil_sublist _⟩
+  | .fn [], b, tr, tr', h => by
+    simp only [selTrace, selTraceL, Option.some.injEq] at h
+    subst h
+    exact ⟨[], by simp, List.nil_sublist _⟩
+  | .fn (.feed s :: rest), b, tr, tr', h => by
+    simp only [selTrace] at h
+    split at h
+    · rename_i hg
+      cases hr : selTraceL rest (b + s) tr.tail with
+      | none => simp [hr] at h
+      | some t1 =>
+        simp only [hr] at h
+        split at h
+        · rename_i hs
+          simp only [Option.some.injEq] at h
+          obtain ⟨pre1, e1, s1⟩ := selTraceL_sublist rest (b + s) tr.tail t1 hr
+          refine ⟨[⟨.get, b, s⟩] ++ pre1 ++ [⟨.set, b, s⟩], ?_, ?_⟩
+          · rw [head?_eq_some hg, e1, head?_eq_some hs, h]; simp
+          · simp only [expectedTrace]
+            exact ((List.Sublist.refl _).append s1).append (List.Sublist.refl _)
+        · simp at h
+    · simp only [Option.some.injEq] at h
+      subst h
+      exact ⟨[], by simp, List.nil_sublist _⟩
+  | .fn (.mem s :: rest), b, tr, tr', h => by
+    have h' : selTraceL (.mem s :: rest) b tr = some tr' := by simpa [selTrace] using h
+    simpa [expectedTrace] using selTraceL_sublist (.mem s :: rest) b tr tr' h'
+  | .fn (.delay n :: rest), b, tr, tr', h => by
+    have h' : selTraceL (.delay n :: rest) b tr = some tr' := by simpa [selTrace] using h
+    simpa [expectedTrace] using selTraceL_sublist (.delay n :: rest) b tr tr' h'
+  | .fn (.fn cs :: rest), b, tr, tr', h => by
+    have h' : selTraceL (.fn cs :: rest) b tr = some tr' := by simpa [selTrace] using h
+    simpa [expectedTrace] using selTraceL_sublist (.fn cs :: rest) b tr tr' h'
+theorem selTraceL_sublist : ∀ (cs : List Sk) (b : Nat) (tr tr' : List Access), selTraceL cs b tr = some tr' →
+    ∃ pre, tr = pre ++ tr' ∧ pre.Sublist (expectedTraceL cs b)
+  | [], b, tr, tr', h => by
+    simp only [selTraceL, Option.some.injEq] at h
+    subst h
+    exact ⟨[], by simp, List.nil_sublist _⟩
+  | c :: cs, b, tr, tr', h => by
+    simp only [selTraceL] at h
+    cases hc : selTrace c b tr with
+    | none => simp [hc] at h
+    | some t1 =>
+      simp only [hc] at h
+      obtain ⟨p1, e1, s1⟩ := selTrace_sublist c b tr t1 hc
+      obtain ⟨p2, e2, s2⟩ := selTraceL_sublist cs (b + c.size) t1 tr' h
+      exact ⟨p1 ++ p2, by rw [e1, e2]; simp, by simp only [expectedTraceL]; exact s1.append s2⟩
+end
+
+/-- what the generalised judge accepts is an in-order sub-selection of the expected trace -/
+theorem conformsSel_sublist (sk : Sk) (trace : List Access) (cursor : Nat) (h : conformsSel sk trace cursor = true) :
+    cursor = 0 ∧ trace.Sublist (expectedTrace sk 0) := by
+  simp only [conformsSel, Bool.and_eq_true, decide_eq_true_eq, beq_iff_eq] at h
+  obtain ⟨pre, e, hs⟩ := selTrace_sublist sk 0 trace [] h.1.2
+  rw [List.append_nil] at e
+  subst e
+  exact ⟨h.2, hs⟩
+
+/-- the strict judge is the special case in which nothing is skipped -/
+theorem conforms_sublist (sk : Sk) (trace : List Access) (cursor : Nat) (h : conforms sk trace cursor = true) :
+    cursor = 0 ∧ trace.Sublist (expectedTrace sk 0) := by
+  simp only [conforms, Bool.and_eq_true, decide_eq_true_eq, beq_iff_eq] at h
+  exact ⟨h.2, by rw [h.1]; exact List.Sublist.refl _⟩
+
 end Mimium.Layout
